@@ -37,7 +37,11 @@ RULE = ('Hypothesis: FileSpec (1-5 dims of length 1-6, <=1 unlimited, 1-5 '
         "file's; dimensions compared as mapping name -> (length, unlimited) "
         'with len(d) = sum, order of the dimension dictionary not judged; '
         'variable and global attributes equal the first file\'s (all inputs '
-        'carry the same attributes); split family: the result equals the '
+        'carry the same attributes); in 2/3 of the independent-files cases '
+        'the variables without d - coordinate variables included - differ '
+        'between the files, with coordinate keys declared by setCoords, by '
+        'coordkeys= (stack_files), or implicitly by netcdf-class inputs '
+        '(stack_files on reopened pieces, the multi-file openers); split family: the result equals the '
         'original file field by field and result.sliceDimensions(d=slice(a,b))'
         ' equals each piece (unit-stride slices only).  Thorough tier also '
         '(and ~1/8 of the quick tier) runs core._functions.stack_files '
@@ -109,15 +113,42 @@ def cases(draw, tier='quick'):
         bare = (k == 2 and draw(st.booleans()))
         return dict(family='split', file=fs, dim=d, sizes=sizes, bare=bare,
                     entry=entry, names=draw(pathnames(k))
-                    if entry != 'method' else None)
+                    if entry != 'method' else None,
+                    **draw(coordmodes(fs, d, entry)))
     k = draw(st.integers(2, 4))
     files = [fs]
+    # non-stacked variables - coordinate variables included - differ
+    # between the files in 2/3 of the cases: the first file's must win
+    vary = draw(st.integers(0, 2)) > 0
     for i in range(k - 1):
         nl = draw(st.integers(1, 5))
-        files.append(draw(A.redraw(fs, FOPTS, newlen={d: nl})))
+        files.append(draw(A.redraw(fs, FOPTS, newlen={d: nl},
+                                   vary_coords=vary)))
     bare = (k == 2 and draw(st.booleans()))
     return dict(family='indep', files=files, dim=d, bare=bare, entry=entry,
-                names=draw(pathnames(k)) if entry != 'method' else None)
+                names=draw(pathnames(k)) if entry != 'method' else None,
+                **draw(coordmodes(fs, d, entry)))
+
+
+@st.composite
+def coordmodes(draw, fs, d, entry):
+    """how the inputs declare coordinate keys: not at all, setCoords on
+    every input, coordkeys= argument (stack_files), or netcdf-class inputs
+    (stack_files on reopened files; dimension variables are coordinate keys
+    automatically)"""
+    ck = [v['name'] for v in fs['vars'] if v.get('coord')]
+    others = [v['name'] for v in fs['vars']
+              if not v.get('coord') and d not in v['dims']]
+    if others and draw(st.booleans()):
+        ck = ck + [draw(st.sampled_from(others))]
+    modes = ['none', 'setcoords']
+    if entry == 'stack_files':
+        modes = ['none', 'setcoords', 'coordkeys', 'coordkeys', 'netcdf',
+                 'netcdf']
+    elif entry != 'method':
+        modes = ['none']
+    mode = draw(st.sampled_from(modes)) if ck else 'none'
+    return dict(coordmode=mode, ckeys=ck if mode != 'none' else [])
 
 
 @st.composite
@@ -166,8 +197,13 @@ def run_stack(r, case, files, d):
                          lambda: files[0].stack(files[1], d))
         return guard(r, 'stack-raises',
                      lambda: files[0].stack(files[1:], d))
-    if entry == 'stack_files':
+    mode = case.get('coordmode', 'none')
+    ckeys = list(case.get('ckeys') or [])
+    if entry == 'stack_files' and mode != 'netcdf':
         from PseudoNetCDF.core._functions import stack_files
+        if mode == 'coordkeys':
+            return guard(r, 'stack_files-raises',
+                         lambda: stack_files(files, d, coordkeys=ckeys))
         return guard(r, 'stack_files-raises', lambda: stack_files(files, d))
     # disk-backed entry points
     from .. import libstate
@@ -189,6 +225,25 @@ def run_stack(r, case, files, d):
         del o
         gc.collect()
         paths.append(p)
+    if entry == 'stack_files':
+        # netcdf-class inputs: all pieces are open at once (as the
+        # multi-file openers do), closed and collected afterwards
+        from PseudoNetCDF.core._functions import stack_files
+        opened = []
+        try:
+            for p in paths:
+                opened.append(netcdf(p))
+            ok, out = guard(r, 'stack_files-raises',
+                            lambda: stack_files(opened, d))
+        finally:
+            for o in opened:
+                try:
+                    o.close()
+                except Exception:
+                    pass
+            del opened
+            gc.collect()
+        return ok, out
     if entry == 'mfdataset':
         ok, out = guard(r, 'open_mfdataset-raises',
                         lambda: netcdf.open_mfdataset(*paths, stackdim=d))
@@ -219,16 +274,39 @@ def check_case(case):
             edges.append(edges[-1] + A.dlen_of(s)[d])
         r.label('family:indep')
     entry = case.get('entry', 'method')
-    disk = entry in ('mfdataset', 'pncmfopen')
+    mode = case.get('coordmode', 'none')
+    if entry == 'stack_files' and mode == 'netcdf' and \
+            not all(disk_ok(s) for s in specs):
+        case = dict(case, coordmode='none', ckeys=[])
+        mode = 'none'
+    disk = entry in ('mfdataset', 'pncmfopen') or (
+        entry == 'stack_files' and mode == 'netcdf')
     if disk and not all(disk_ok(s) for s in specs):
         # classic netCDF needs the unlimited dimension first; fall back
         case = dict(case, entry='method')
         entry = 'method'
         disk = False
-    r.label('entry:' + entry)
+    r.label('entry:' + entry, 'coordmode:' + mode)
     models = [S.model_of(s) for s in specs]
     m0 = models[0]
     files = [S.build_file(s) for s in specs]
+    if mode == 'setcoords':
+        for f_ in files:
+            f_.setCoords(list(case.get('ckeys') or []))
+    if case['family'] == 'indep':
+        for name, mv in m0.vars.items():
+            if d in mv.dims:
+                continue
+            differs = any(not np.array_equal(
+                np.ma.getdata(mv.data), np.ma.getdata(m_.vars[name].data))
+                for m_ in models[1:])
+            if differs:
+                r.label('unstacked-var-differs')
+                if name in m0.dims:
+                    r.label('unstacked-coordvar-differs')
+                if name in (case.get('ckeys') or []) or (
+                        disk and name in m0.dims):
+                    r.label('unstacked-coordkey-differs')
     # ---- labels / non-triviality
     k = len(specs)
     r.label('inputs:%d' % k)
